@@ -224,6 +224,14 @@ def oracle(p):
                         c1, c2 = h.cube_extent().double(), g.cube_extent().double()
                         if not bool(torch.all((c1 - c2).abs() <= 2e-5 * (1 + c2.abs()))):
                             fail("C03:pyr:domain", "pyramid level does not cover the same domain", grid=gd, chain=chain)
+                if k == "resample" and h is not g:
+                    # internal size * new spacing = old physical extent (= number of samples * old spacing), unless clamped
+                    e_old = g.extent().double()
+                    e_new = (h._size.double() * h.spacing().double())
+                    unclamped = [float(e_old[i] / h.spacing()[i]) >= op.get("min_size", 1) for i in range(D)]
+                    if all(unclamped) and not bool(torch.all((e_new - e_old).abs() <= 2e-5 * (1 + e_old.abs()))):
+                        fail("C03:resample:extent", "resample: internal size * new spacing is not the old physical extent", grid=gd, chain=chain,
+                             got=e_new.tolist(), want=e_old.tolist(), stored_size=[float(v) for v in g._size])
                 if k == "down":
                     # downsample followed by upsample returns the original grid when no axis was clamped
                     n_f = [float(v) for v in g._size]
